@@ -18,6 +18,11 @@ def load_contracts():
 
 def generate(reg, key):
     """-> (obligations, info) for one contract key; raises OutOfSubset / ContractDrift."""
+    # the numbering of fresh symbols restarts per key: the SMT-LIB text of a key's obligations then does not depend on which other keys
+    # the same worker process generated before (solver behaviour is sensitive to symbol names/order, verdicts must not depend on scheduling)
+    import itertools
+    from . import vals
+    vals._counter = itertools.count()
     c = reg.contracts[key]
     if c.is_lemma:
         return generate_lemma(reg, c)
